@@ -370,6 +370,14 @@ def payload(name, o):
         return {1, 2}
     if name == "objarr-str":
         return np.array(["a"] * max(a.size, 1), dtype=object).reshape(a.shape if a.size else (1,))
+    if name == "objarr-first-str":      # an object array whose FIRST element is a str and a later one is not (2 or more elements)
+        n = max(a.size, 2)
+        vals = ["a"] * n
+        vals[n // 2 if n > 2 else 1] = None
+        vals[-1] = 1.5 if n > 2 else vals[-1]
+        out = np.empty(n, dtype=object)
+        out[:] = vals
+        return out.reshape(a.shape) if a.size >= 2 else out
     if name == "objarr-other":
         return np.array([None] * max(a.size, 1), dtype=object).reshape(a.shape if a.size else (1,))
     if name == "bytes-array":
@@ -387,7 +395,7 @@ PAYLOADS = [
     "none", "pyfloat", "pyint", "pybool", "pystr", "pybytes", "pycomplex", "bigint", "npscalar", "npscalar-f64",
     "wrong-dtype", "wrong-dtype-other-values", "float64", "alias-dtype", "longdouble", "wrong-rank", "wrong-dim", "zero-d", "empty",
     "list2", "list1", "list1-real", "list0", "nested11", "nested2", "list-none", "list-scalars", "list-wrong-dtype",
-    "list-wrong-shape", "list-mixed", "tuple2", "ragged-tuple", "dict", "object", "set", "objarr-str", "objarr-other",
+    "list-wrong-shape", "list-mixed", "tuple2", "ragged-tuple", "dict", "object", "set", "objarr-str", "objarr-first-str", "objarr-other",
     "bytes-array", "str-array", "datetime", "array-for-seq",
 ]
 STRUCTS = ["trunc-all", "trunc-last", "extra", "swap", "nonlist-none", "nonlist-int", "tuple", "generator"]
